@@ -269,6 +269,7 @@ class _Table(_Stub):
         self.tag, self.int_chrom, self.series = tag, int_chrom, series
         self.stores = []
         self.index = Opaque("index of " + tag)
+        self.name = Opaque("name of " + tag)
         self.dtype = ("dtype-of", self)
 
     def pyvc_getitem(self, I, key, node):
@@ -459,7 +460,9 @@ class ApiBins(_ReaderBase):
         cat = calls[ic][3]
         if isinstance(fields, str):
             ser = [c for c in calls if c[0] == "pd.Series"]
-            out["series-keeps-the-row-labels"] = len(ser) == 1 and ser[0][1][0] is cat and ser[0][1][1] is t.index and result is ser[0][3]
+            idx_arg = (ser[0][1][1] if len(ser[0][1]) > 1 else ser[0][2].get("index")) if len(ser) == 1 else None
+            out["series-keeps-the-row-labels"] = len(ser) == 1 and len(ser[0][1]) >= 1 and ser[0][1][0] is cat and idx_arg is t.index \
+                and result is ser[0][3]
         else:
             out["only-the-chromosome-column-replaced"] = result is t and t.stores == [("chrom", cat)]
         return out
